@@ -4,7 +4,7 @@ from props import ModuleCheck, T
 FARM_CLAUSES_C05 = ["C05_StakeSum", "C05_Escrow", "C05_UnstakeNeverFails", "C05_UnstakeExact",
                     "C05_StakeExact", "C05_OthersUntouched", "C05_ScaleExact", "C05_CrisisInvariant",
                     "Rejected_NoEffect"]
-FARM_CLAUSES_C06 = ["C06_Budget", "C06_Funded", "C06_AdjustApplies", "C06_ProRata", "C06_Flows", "C06_Rate", "C06_RefundOnce"]
+FARM_CLAUSES_C06 = ["C06_Budget", "C06_Funded", "C06_AdjustApplies", "C06_ProRata", "C06_Flows", "C06_Rate", "C06_TouchAccrues", "C06_RefundOnce"]
 
 FARM_RND = T(
     [dict(n=12, len=25, procs=6, cfg="users=3,rdenoms=2,initlp=6,initr=60"),
